@@ -34,5 +34,30 @@ rows = ["| property | status | commit | what |", "|---|---|---|---|"]
 for f in kf:
     rows.append(f"| {f['property']} | {f['status']} | {f.get('commit', '')} | {f['what']} |")
 block("FINDINGS", "\n".join(rows))
+# status table from MANIFEST + evidence + findings + seeded
+man = json.loads((V / "MANIFEST.json").read_text())
+claimed = {c["property_id"]: c for c in man["checks"]}
+props = [json.loads(l) for l in (V / "properties.jsonl").read_text().splitlines() if l.strip()]
+rows = ["| prop | claimed | theorems (audited) | quick cases / distinct | fixes | known findings | seeded change |", "|---|---|---|---|---|---|---|"]
+for pr in props:
+    pid = pr["id"]
+    ev = V / "evidence" / f"{pid}.json"
+    th = cases = "-"
+    if ev.exists():
+        try:
+            e = json.loads(ev.read_text())["coverage"]
+            th = f"{e.get('discharged', '-')}/{e.get('obligations', '-')}"
+            cases = f"{e.get('evaluations', '-')} / {e.get('distinct_nontrivial', '-')}"
+        except Exception:
+            pass
+    fx = sum(1 for f in kf if f["property"] == pid and f["status"] == "fixed")
+    kn = sum(1 for f in kf if f["property"] == pid and f["status"] == "known")
+    sd = V / "seeded" / pid / "meta.json"
+    sdt = "-"
+    if sd.exists():
+        m = json.loads(sd.read_text())
+        sdt = "missed, then check strengthened" if m.get("note") else ("caught (monitor only in quick)" if "no-failing-input-found" in m["detected_by"] else "caught")
+    rows.append(f"| {pid} | {'proof' if pid in claimed else 'not claimed'} | {th} | {cases} | {fx} | {kn} | {sdt} |")
+block("STATUS", "\n".join(rows))
 (V / "DESIGN.md").write_text(d)
 print("DESIGN.md appendices refreshed")
